@@ -237,7 +237,16 @@ func (r *renderer) items(items []item, lines *[]string) {
 			}
 			*lines = append(*lines, l+r.trailing())
 		case 'Q':
-			*lines = append(*lines, r.sp(0)+it.name+r.colon()+r.sp(1)+r.cs("equ")+r.sp(1)+r.expr(it.expr)+r.trailing())
+			if !r.plain && r.rng.Intn(8) == 0 {
+				// the name on a line of its own (with or without a remark), `equ` on the next one
+				l := r.sp(0) + it.name + r.colon()
+				if r.rng.Intn(2) == 0 {
+					l += r.sp(1) + "; remark"
+				}
+				*lines = append(*lines, l, r.sp(0)+r.cs("equ")+r.sp(1)+r.expr(it.expr)+r.trailing())
+			} else {
+				*lines = append(*lines, r.sp(0)+it.name+r.colon()+r.sp(1)+r.cs("equ")+r.sp(1)+r.expr(it.expr)+r.trailing())
+			}
 		case 'O':
 			*lines = append(*lines, r.sp(0)+r.cs("org")+r.sp(1)+r.expr(it.expr)+r.trailing())
 		case 'E':
@@ -468,6 +477,9 @@ func asmConfig(rng *rand.Rand, legacy bool, bigM bool) gmars.SimulatorConfig {
 				}
 			}
 		}
+	}
+	if rng.Intn(40) == 0 {
+		c.Processes = gmars.Address([]uint64{1 << 31, 1<<31 + 5, 1 << 40, 1<<31 - 1}[rng.Intn(4)]) // the assembler never allocates a queue
 	}
 	if bigM {
 		c.CoreSize = 1<<33 + 9
@@ -1063,7 +1075,17 @@ func runAsmFull(cfg gmars.SimulatorConfig, text []byte) asmOutcome {
 				return
 			}
 		}
-		w, err = gmars.CompileWarrior(bytes.NewReader(text), cfg)
+		w, err = gmars.CompileWarrior(readerFor(text), cfg)
+		if err == nil && len(text)%4 == 1 {
+			// the caller owns what it was given: scribble over the result and assemble the same
+			// text again under the same configuration — the second answer is the one reported
+			for i := range w.Code {
+				w.Code[i] = gmars.Instruction{Op: gmars.NOP, OpMode: gmars.I, AMode: gmars.B_INCREMENT, A: ^gmars.Address(0), BMode: gmars.A_INCREMENT, B: ^gmars.Address(0)}
+			}
+			w.Start = -7
+			w.Name = "scribbled"
+			w, err = gmars.CompileWarrior(bytes.NewReader(text), cfg)
+		}
 	})
 	res := wresult(w, err, f)
 	if f == "timeout" {
